@@ -13,8 +13,8 @@ ID = "C01"
 WANT_TOKS = True
 REQUIRES = ["Agree", "C01Spec"]
 THEOREM_REQUIRES = ["C01"]
-THEOREMS = ["C01_holds_partial", "C01_holds_structure"]
-PROOF_FILES = ["Proofs/C01Proof.v", "Proofs/C06Named.v", "Proofs/C07Comp.v", "Proofs/C01More.v", "Properties/C01.v"]
+THEOREMS = ["C01_holds_partial", "C01_holds_structure", "C01_holds"]
+PROOF_FILES = ["Proofs/C01Proof.v", "Proofs/C06Named.v", "Proofs/C07Comp.v", "Proofs/C01More.v", "Proofs/SortDedup.v", "Proofs/C01Full.v", "Properties/C01.v"]
 RULE = ("every accepted module is compiled for real: `cargo check` of a scratch crate holding all generated modules "
         "against wgpu 24.0.5 + bytemuck + encase + glam + serde (+ a local nalgebra stub); families: kitchen-sink "
         "(constants, overrides, entry points of all stages, vertex inputs, fragment outputs), struct programs x derive "
@@ -124,8 +124,8 @@ def _model(c, r, ir):
 def verdict_expr(c, r, ir, real):
     kfs = "; ".join("on_out %s (fun o => %s)" % (real, p) for p in KF_PREDS)
     tk = (" && tokens_agree %s toks_%d" % (_model(c, r, ir), c["id"])) if c.get("want_toks") else ""
-    return "[wf %s; agree_res out_eqb %s %s%s; %s; %s]" % (
-        ir, _model(c, r, ir), real, tk, "true" if _compiles(c, r) else "false", kfs)
+    return "[wf %s && wf_member_names %s && wf_override_names %s; agree_res out_eqb %s %s%s; %s; %s]" % (
+        ir, ir, ir, _model(c, r, ir), real, tk, "true" if _compiles(c, r) else "false", kfs)
 
 
 def verdict_expr_noout(c, r, ir):
